@@ -153,8 +153,31 @@ class World:
                 self._vraw.append(bytes(raw))
 
         self.Conn = Conn
+        self._conn_classes = {}
+        self._ClientAuthenticator = ClientAuthenticator
         self.preference = list(authentication.ClientAuthenticator.preference)
+        # every `_auth_<WORD>` handler the class has (today the five server words): all of them are put
+        # into the line alphabets, so a handler for a word outside the protocol is exercised too
+        self.handler_words = sorted(n[6:].encode() for n in dir(authentication.ClientAuthenticator)
+                                    if n.startswith('_auth_'))
         self.env = None
+        self.escapes = []
+
+        def guarded_open(path, *a, **kw):
+            """`open` as seen by txdbus.authentication: a path that leaves the keyring directory of the
+            current environment is recorded and refused - nothing outside the scratch keyrings is ever
+            opened (a FIFO or a device there would block the process)."""
+            keyring = os.path.realpath(os.path.join(world.env.home, '.dbus-keyrings'))
+            try:
+                real = os.path.realpath(os.fspath(path))
+            except (TypeError, ValueError):
+                real = None
+            if real is None or not (real == keyring or real.startswith(keyring + os.sep)):
+                world.escapes.append(os.fsdecode(path) if isinstance(path, (bytes, str)) else repr(path))
+                raise PermissionError(13, 'refused by the harness', path)
+            return open(path, *a, **kw)
+
+        authentication.open = guarded_open
 
         class OsProxy:
             def __getattr__(self, name):
@@ -174,10 +197,25 @@ class World:
 
     def set_env(self, env):
         self.env = env
+        self.escapes = []
         os.environ['HOME'] = env.home
+
+    def conn_for(self, pref):
+        """The connection class for a preference list (None: the class's own list)."""
+        if pref is None:
+            return self.Conn
+        key = tuple(pref)
+        if key not in self._conn_classes:
+            auth = type('ClientAuthenticator', (self._ClientAuthenticator,), {'preference': list(pref)})
+            self._conn_classes[key] = type('Conn', (self.Conn,), {'authenticator': auth})
+        return self._conn_classes[key]
 
     def restore(self):
         self.authentication.os, self.authentication.getpass = self._saved
+        try:
+            del self.authentication.open
+        except AttributeError:
+            pass
         if self._home is None:
             os.environ.pop('HOME', None)
         else:
@@ -233,12 +271,12 @@ def error_kind(text):
 class Session:
     """One client connection of the real code on a fake transport."""
 
-    def __init__(self, world, unix, env):
+    def __init__(self, world, unix, env, pref=None):
         self.world = world
         world.set_env(env)
         self.log = []
         self.t = (FakeUnixTransport if unix else FakeTransport)(self.log)
-        self.p = world.Conn()
+        self.p = world.conn_for(pref)()
         self.p._vlog = self.log
         self.p._vraw = []
         self.p._vauth = None
@@ -325,8 +363,12 @@ class Session:
         return ' '.join(evs) + ' | ' + self.final()
 
 
+def case_pref(case):
+    return [unhx(m) for m in case['pref']] if case.get('pref') is not None else None
+
+
 def run_impl(world, case, envs):
-    s = Session(world, case['unix'], envs[case['env']])
+    s = Session(world, case['unix'], envs[case['env']], case_pref(case))
     for c in case['chunks']:
         s.feed(unhx(c))
     return s
@@ -334,7 +376,10 @@ def run_impl(world, case, envs):
 
 def driver_line(case, envs):
     env = envs[case['env']]
-    return ' '.join(['run', '1' if case['unix'] else '0'] + env.driver_tokens()
+    head = ['run']
+    if case.get('pref') is not None:
+        head = ['runp', str(len(case['pref']))] + list(case['pref'])
+    return ' '.join(head + ['1' if case['unix'] else '0'] + env.driver_tokens()
                     + [str(len(case['chunks']))] + list(case['chunks']))
 
 
@@ -362,12 +407,12 @@ def is_subsequence_without_repetition(xs, ys):
     return all(any(x == y for y in it) for x in xs)
 
 
-def monitor(world, unix, evs, early_binary):
+def monitor(world, unix, evs, early_binary, pref=None):
     """Returns a list of (key, what) for every part of the statement that the trace breaks.  Written from
     the statement only; where the statement is silent the monitor is silent (a client may write a last
     line before closing, may skip mechanisms, may close where it could have gone on only if nothing is left)."""
     out = []
-    pref = world.preference
+    pref = list(world.preference if pref is None else pref)
     ev = [(e[:1], unhx(e[2:]) if e[:2] in ('R:', 'S:') else None) for e in evs]
     ok_seen = neg_after_ok = fd_answer = False
     ok_ever = False
@@ -474,9 +519,16 @@ def judge(ctx, world, stream, case, envs, model_out):
     ctx.case(stream, sample=case, nontrivial=nlines > 0)
     if model_out is not None and model_out != impl:
         ctx.disagree(stream, case, model_out, impl)
-    for key, what in monitor(world, case['unix'], evs, early):
+    for key, what in monitor(world, case['unix'], evs, early, case_pref(case)):
         ctx.violation(key, what, inp=dict(case, kind='run'), observed=impl,
                       expected='see the property statement of C07')
+    if world.escapes:
+        ctx.violation('cookie-context-escapes-keyring',
+                      'a cookie context name sent by the server makes the client open %r, outside its keyring '
+                      'directory (a FIFO or a device there blocks dataReceived forever: the handshake stalls)'
+                      % (world.escapes[0],),
+                      inp=dict(case, kind='run'), observed=impl,
+                      expected='ERROR for a context name that is not a plain file name; no file opened')
     judge_splitting(ctx, world, case, envs, s, impl)
     return s, evs
 
@@ -570,6 +622,34 @@ RICH_ALPHABET = BASE_ALPHABET + [
     b'\r',
     b'OK 1234\r',
     b'\nOK 1234',
+    # cookie context names that are not plain file names (never opened: see World.guarded_open)
+    b'DATA ' + cookie_payload(b'/etc/hostname', b'7'),
+    b'DATA ' + cookie_payload(b'..', b'7'),
+    b'DATA ' + cookie_payload(b'.', b'7'),
+    b'DATA ' + cookie_payload(b'../good/.dbus-keyrings/ctxa', b'7'),
+    b'DATA ' + cookie_payload(b'sub/ctxa', b'7'),
+    b'DATA ' + cookie_payload(b'ctx.a', b'7'),
+    b'DATA ' + cookie_payload(b'.ctxa', b'7'),
+    b'DATA ' + cookie_payload(b'ct\\xa', b'7'),
+    # GUIDs of the real size and beyond, upper case
+    b'OK 6abbe624c672777bd87ab46e00027706',
+    b'OK 6ABBE624C672777BD87AB46E00027706',
+    b'OK 6abbe624c672777bd87ab46e0002770',
+    b'OK ' + b'6abbe624c672777bd87ab46e00027706' * 2,
+    b'OK 6abbe624c672777bd87ab46e00027706 extra',
+    # words that are valid UTF-8 but not ASCII
+    'OK\u00e9 1234'.encode('utf-8'),
+    '\u00d6K 1234'.encode('utf-8'),
+    'REJECTED\u2028'.encode('utf-8'),
+    'D\u0410TA'.encode('utf-8'),
+]
+
+# forms that keep the conversation going (drawn with a higher weight in the random stream)
+NONCLOSING = [
+    b'REJECTED', b'ERROR', b'DATA', b'DATA ' + cookie_payload(), b'OK 6abbe624c672777bd87ab46e00027706',
+    b'REJECTED EXTERNAL DBUS_COOKIE_SHA1 ANONYMOUS', b'ERROR "Unknown command"', b'DATA zz',
+    b'DATA ' + cookie_payload(b'ctxb', b'9'), b'DATA ' + cookie_payload(b'/etc/hostname', b'7'),
+    b'OK  1234DEADBEEF ', b'AGREE_UNIX_FD',
 ]
 
 NON_UTF8 = [b'\xff\xfe', b'OK\xff 1234', b'\xc3\x28 x']
@@ -606,28 +686,31 @@ def chunkings(rng, data, n):
     return outs
 
 
-def mk_case(unix, env, chunks):
-    return {'unix': bool(unix), 'env': env, 'chunks': [hx(c) for c in chunks]}
+def mk_case(unix, env, chunks, pref=None):
+    c = {'unix': bool(unix), 'env': env, 'chunks': [hx(c) for c in chunks]}
+    if pref is not None:
+        c['pref'] = [hx(m) for m in pref]
+    return c
 
 
-def exhaustive_cases(world, envs, depth, alphabet):
-    """All sequences over `alphabet` up to `depth` lines, for both transport kinds; a sequence is not
+def exhaustive_cases(world, envs, depth, alphabet, env='good', kinds=(False, True), pref=None):
+    """All sequences over `alphabet` up to `depth` lines, for the transport kinds given; a sequence is not
     extended once the implementation closed or authenticated (one probe line is still appended)."""
     cases = []
-    for unix in (False, True):
+    for unix in kinds:
         frontier = [[]]
         for d in range(depth):
             nxt = []
             for seq in frontier:
                 for sym in alphabet:
                     s2 = seq + [sym]
-                    case = mk_case(unix, 'good', [b''.join(l + CRLF for l in s2)])
+                    case = mk_case(unix, env, [b''.join(l + CRLF for l in s2)], pref)
                     cases.append(case)
                     sess = run_impl(world, case, envs)
                     if not sess.t.disconnecting and not sess.p._authenticated:
                         nxt.append(s2)
                     elif d + 1 < depth:
-                        cases.append(mk_case(unix, 'good', [b''.join(l + CRLF for l in s2 + [b'REJECTED'])]))
+                        cases.append(mk_case(unix, env, [b''.join(l + CRLF for l in s2 + [b'REJECTED'])], pref))
             frontier = nxt
     return cases
 
@@ -1011,7 +1094,12 @@ def sorted_exchange(evs):
 # --------------------------------------------------------------------------------------------
 def random_lines_case(rng, envs, alphabet, maxlen, env_names):
     n = rng.randrange(1, maxlen + 1)
-    seq = [rng.choice(alphabet) for _ in range(n)]
+    # half of the conversations draw 4 of 5 lines from the forms that keep the connection open, so that
+    # the rich forms are met in every state (second and third mechanism, pending negotiation), not only first
+    if rng.random() < 0.5:
+        seq = [rng.choice(NONCLOSING) if rng.random() < 0.8 else rng.choice(alphabet) for _ in range(n)]
+    else:
+        seq = [rng.choice(alphabet) for _ in range(n)]
     # bias towards conversations that stay open: start with a plausible prefix sometimes
     if rng.random() < 0.4:
         seq = [rng.choice([b'REJECTED', b'ERROR', b'DATA'])] * rng.randrange(0, 3) + seq
